@@ -121,10 +121,11 @@ func apiCompatible(spec *Spec) bool {
 }
 
 func buildAPI(spec *Spec, w *world) (*apifu.API, error) {
-	def, _, err := buildDefinition(spec, w)
+	def, named, err := buildDefinition(spec, w)
 	if err != nil {
 		return nil, err
 	}
+	prebuild(spec, def, named) // Staged 3 / 4: the API is a second build of objects schema.New has seen before
 	logger := logrus.New()
 	logger.SetOutput(io.Discard)
 	cfg := &apifu.Config{Features: featuresFromContext, Logger: logger, HandleGraphQLWSInit: wsInitHook,
